@@ -61,11 +61,21 @@ pub fn generate(ctx: &Ctx, prop: &str, thorough: bool, run_seed: u64, index: u64
 }
 
 pub fn run(ctx: &Ctx, case: &Case, spec: &SchedSpec) -> RunReport {
-    match case {
+    let mut rep = match case {
         Case::Table(c) => crate::table::run(c, spec),
         Case::Search(c) => crate::search::run(ctx, c, spec),
         Case::Uci(c) => crate::uci::run(ctx, c, spec),
+    };
+    // A panic raised by the simulator itself because the operating system refused memory for a
+    // task's stack says nothing about the engine: the run is discarded (reported and counted),
+    // not judged.
+    if let crate::exec::Outcome::Panic { msg, loc } = &rep.outcome {
+        if loc.contains("shuttle") && (msg.contains("Cannot allocate memory") || msg.contains("OutOfMemory")) {
+            rep.harness_error = Some(format!("the simulator could not allocate a task stack ({} at {}): run discarded", msg, loc));
+            rep.violations.clear();
+        }
     }
+    rep
 }
 
 pub fn shrink(case: &Case) -> Vec<Case> {
